@@ -946,6 +946,17 @@ def probe_cases(thorough: bool, rng=None):
     add(('for', [(0, ('var', 0))], ('var', 0)), 'F08b')
     add(('for', [(5, ('for', [(5, r12)], ('var', 5)))], ('var', 5)), 'F08b')
     add(('some', [(0, ('filter', ('var', 0), ('cmp', 'gt', ('dot',), I(1))))], ('cmp', 'eq', ('var', 0), I(2))), 'F08b')
+    # admitted since the partial repair of F08b: the occurrence is bound inside the range expression or by a
+    # previous clause of the same expression
+    add(('for', [(5, r12), (5, seq([('var', 5), I(9)]))], ('var', 5)), 'F08b-repaired')
+    add(('some', [(5, r12), (5, seq([('var', 5), I(9)]))], ('cmp', 'eq', ('var', 5), I(9))), 'F08b-repaired')
+    add(('every', [(5, ('some', [(5, r12)], ('cmp', 'eq', ('var', 5), I(2))))], ('var', 5)), 'F08b-repaired')
+    add(('for', [(5, r12), (6, ('for', [(5, seq([I(5), I(6)]))], ('ar', '+', ('var', 5), I(1))))],
+         ('ar', '+', ('var', 5), ('var', 6))), 'F08b-repaired')
+    add(('for', [(5, seq([('var', 5), I(1)])), (5, I(2))], ('var', 5)), 'F08b')       # still rejected: free in the first clause
+    add(('for', [(0, r12)], ('for', [(0, seq([('var', 0), I(9)]))], ('var', 0))), 'F08b')  # outer binding not seen
+    add(F('sum', ('var', 2)), 'F08u')
+    add(F('sum', ('filter', ('var', 2), I(2)), I(0)), 'F08u')
     add(('var', 0)); add(('var', 1)); add(('dot',)); add(('pos',)); add(('last',))
     add(('filter', ('var', 0), ('cmp', 'gt', ('dot',), ('var', 1))))
     return cases
@@ -1622,6 +1633,11 @@ def kernel_probe(run: Run):
                                       site='EPV.Seq.lexDouble vs helpers.get_double'))
     dpairs = [(rng.randint(-10 ** rng.randint(1, 25), 10 ** rng.randint(1, 25)), rng.randint(1, 10 ** rng.randint(1, 12)))
               for _ in range(run.scale(800, 8000))]
+    # quotients with more than 28 integer digits (fn:avg of big integers), incl. exact ties at the 28th digit
+    dpairs += [(rng.choice([1, -1]) * rng.randint(10 ** 28, 10 ** rng.randint(29, 70)), rng.randint(1, 10 ** rng.randint(0, 6)))
+               for _ in range(run.scale(200, 2000))]
+    dpairs += [(10 ** 30 + 1, 2), (-(10 ** 30) - 1, 3), (10 ** 29 + 5, 1), (10 ** 29 + 15, 1), (3 * 10 ** 28 + 5, 2),
+               (10 ** 28 - 1, 1), (10 ** 28, 1), (10 ** 28 + 1, 2), (2 * 10 ** 28 - 1, 2), (10 ** 400, 3)]
     ans = run.driver('C08', [f'sig28={n}/{d}' for n, d in dpairs])
     for (n, d), a in zip(dpairs, ans):
         run.stats.case({'sig28': f'{n}/{d}'}, nontrivial=False)
@@ -1779,7 +1795,7 @@ def assemble(c: Case, ans: str, impl) -> dict:
         return rec
     f = parse_answer(ans)
     model, spec = f['model'], f['spec']
-    rec['model'], rec['spec'], rec['k'], rec['u'] = model, spec, f.get('k', '0'), f.get('u', '0')
+    rec['model'], rec['spec'], rec['k'] = model, spec, f.get('k', '0')
     rec['lazy'] = f.get('lazy', spec)
     rec['m'] = f.get('m', '1')
     rec['errs'] = set() if f.get('errs', '_') == '_' else set(f['errs'].split(','))
@@ -1812,18 +1828,6 @@ def judge(run: Run, rec: dict, stats=True) -> list[Disagreement]:
                                 what='hypothesis', site=site_of(c.expr)))
     elif stats and c.expr[0] == 'f' and c.expr[1] in ('min', 'max'):
         st.count('hypothesis-checked:promotionMonotoneOn')
-    if rec.get('u') == '1':
-        # F08u: trigger `Spec.sumNodeInvalid` (top-level fn:sum over a node that is not a number): F&O
-        # requires FORG0001, the code raises FORG0006 (pinned by the repository's test suite)
-        for pv, impl in rec['impl'].items():
-            if impl != 'ERR:FORG0001':
-                d = c.describe()
-                d['parser'] = pv
-                if stats and impl == 'ERR:FORG0006':
-                    st.count('finding:F08u')
-                out.append(Disagreement(d, impl=impl, model=None, spec='ERR:FORG0001', what='value', site='fn:sum',
-                                        tags=['F08u'] if impl == 'ERR:FORG0006' else []))
-        return out
     if 'UNSUPPORTED' in model or 'UNSUPPORTED' in spec or 'ERR:UNSUPPORTED' in rec.get('errs', ()):
         if stats:
             st.count('outside-modelled-fragment')
@@ -2062,10 +2066,8 @@ def body(run: Run) -> int:
         'errors: when some subexpression can raise, the engine must deliver the value of the laziest evaluation '
         'or one of the reachable error codes (Spec.Permitted, XPath 3.1 2.3.4); otherwise the value is compared '
         'exactly; nothing is only counted',
-        'fn:sum over a node whose string value is not an xs:double literal is outside the modelled fragment '
-        '(known finding F08u); fn:max / fn:min compare exactly and promote the result: equal to the F&O '
-        'wording given that xs:double rounding is monotone (theorem min_max_fo_literal, hypothesis evaluated by '
-        'the driver on every aggregate that is run)']
+        'every xs:double item is a binary64 value (Spec.goodItem, checked by the driver on every fn:max / fn:min '
+        'argument): the type D of the model also has dyadics with more than 53 bits']
     run.prove(['EPV.Props.C08'], ['EPV.Spec.FOSeq'])
     rng = run.rng
     global QUICK_PRIMARY
